@@ -4,12 +4,19 @@ Sub-checks
   bfs       exhaustive breadth-first exploration of all (advance clock, select, yield bookkeeping, optional
             rotation) histories to SATURATION of the normalised state space, per parameter set
   machine   random long histories (<= 6 agents, arbitrary clock jumps incl. backwards, clock drift between
-            selection and bookkeeping, selection probes without bookkeeping, arbitrary on_yield payloads)
+            selection and bookkeeping, selection probes without bookkeeping, arbitrary on_yield payloads, agents taken
+            out of / put back into the queue by the driver while their bookkeeping entries stay)
   decision  `_should_yield` (through `_derive_budgets` on validated configs, or on plain budget dicts) vs. the
             documented precedence WALL_MS > BUDGET_* > QUANTUM_EXCEEDED
-  turns     full Orchestrator.run_turn turns with scheduling enabled, real stages and a scripted clock: yields
-            happen only at stage boundaries, exactly one event, nothing of a later stage is executed or logged,
-            and stage work never exceeds the slice budgets
+  turns     full Orchestrator.run_turn slices with scheduling enabled, real stages and a scripted clock (thresholds
+            crossed by one stage or by the sum of several, measured from the slice start), optionally after an earlier
+            slice on the same state / ctx under other budgets: yields happen only at stage boundaries, exactly one
+            event, nothing of a later stage is executed or logged, and stage work never exceeds the slice budgets
+            (heap pops really performed per graph, nodes reachable within the layer / pop budget, hits that justify
+            the residual nudges, plan ops)
+  driver    the real driver loop, clematis/scripts/demo.py main(), run in-process with a zero T1 budget (every slice
+            yields, so every selection gets its bookkeeping): the (agent, pick reason, queue) sequence it logs obeys
+            eligibility / reset / policy order / the wait bound
 
 Reference model: harness/models/scheduler.py.
 """
@@ -35,8 +42,13 @@ RULE = ("bfs: every (parameter set, normalised scheduler state, clock advance) t
         "that is not the queue head (distinct by construction). machine: Hypothesis rule-based histories, non-trivial "
         "= same rule, distinct = digest of the history. decision: generated (budgets, consumption) with values placed "
         "on/around every threshold; non-trivial = at least two of {wall, stage budget, quantum} fire together "
-        "(precedence is exercised). turns: generated (world, slice budgets, per-stage scripted durations); "
-        "non-trivial = the turn yields for a BUDGET_* or WALL_MS reason, or a stage budget clamps real work.")
+        "(precedence is exercised). turns: generated (world with 1-3 graphs, slice budgets per key tight / mid / loose / null / "
+        "absent / huge, scripted durations placing the slice time on, just below or above quantum / wall at a chosen boundary, "
+        "crossed by one stage or by the sum of several; optional earlier slice or T1 evaluation on the same state under other "
+        "budgets, same or fresh ctx, preset ctx.slice_idx, t4 kill switch); non-trivial = the measured slice yields for a "
+        "BUDGET_* or WALL_MS reason, or a stage budget clamps real work. driver: generated (agent names, policy, allowance, "
+        "aging, steps <= 2*bound+3, which zero T1 budget forces the yield, config file vs CLI flags); non-trivial = the logged "
+        "sequence contains a RESET_CONSEC pick with >= 2 agents.")
 ASSUMPTIONS = [
     "legal histories are the ones clematis/scripts/demo.py can produce: on_yield gets reset=True iff the selection "
     "returned RESET_CONSEC; rotation moves the selected agent to the queue tail (exercised for both policies)",
@@ -47,11 +59,25 @@ ASSUMPTIONS = [
     "_should_yield: stage budgets clamp work, so 'budget reached' is consumed == budget; consumed > budget and the "
     "relative order of several simultaneously reached BUDGET_* reasons are undocumented: any reading accepted",
     "turns: elapsed time is the orchestrator's time.perf_counter, shadowed by a scripted clock advanced only inside "
-    "stage callables; the rule-based planner/speaker and the in-memory index are used",
+    "stage callables (and between two slices); the rule-based planner/speaker and the in-memory index are used",
+    "turns: a propagation pop is one heappop of stages/t1's heapq (counted by a pass-through shim, attributed to the graph "
+    "whose adjacency T1 fetched last); independently, with p pops T1 can touch at most the seeds plus the out-neighbours of "
+    "p nodes, with i layers nothing further than i directed hops from a seed (seeds: label / string tag contained in the "
+    "lower-cased text) -- upper bounds only, exact T1 results are C12's business",
+    "turns: the RAG re-entry into retrieval is slice work too (its k_used / residual nudges obey t2_k); slice numbering "
+    "(slice / slice_idx fields) is not part of the property and not checked, but a preset ctx.slice_idx must not change "
+    "any decision",
+    "driver: demo.py freezes its scheduler clock, so fair_queue tiers are all equal there (lexicographic order decides); the "
+    "queue order judged for round_robin is the one the driver logs (queue_before); runs in which some slice did not yield "
+    "are discarded (no bookkeeping -> premise of the wait bound not met; never happens with a zero T1 budget)",
+    "machine: a de-queued agent keeps its last_ran_ms / consec_turns entries (the code's `.get(a, 0)` / `if agent_id in` "
+    "guards make that a supported state); the wait bound is stated for a fixed agent set and is not applied after the "
+    "queue membership changed; bfs 'parked' sets take the lexicographically first agent out before the first selection",
 ]
 
 AGENTS4 = ["b", "a10", "a2", "B"]  # unsorted on purpose; sorted(): B < a10 < a2 < b
-NAME_POOL = ["a", "aa", "B", "b", "a10", "a2", "Z", "ä", "é", "_x", "0", "A"]
+NAME_POOL = ["a", "aa", "B", "b", "a10", "a2", "Z", "ä", "é", "_x", "0", "A", "10", "9", "e\u0301", "a ", "aB", "Ab"]
+UNLIMITED = 10 ** 9  # allowance when fairness.max_consecutive_turns is not given (scheduler._MAX_INT)
 
 
 class Clk:
@@ -94,9 +120,11 @@ class _StateTxt:
 class Driver:
     def __init__(self, agents, t0, policy, m, aging, fresh=True):
         self.policy = policy
-        self.fair = {"max_consecutive_turns": m, "aging_ms": aging}
+        # m None: the driver gives no allowance at all (FairnessCfg is total=False): nobody ever uses one up
+        self.fair = {"max_consecutive_turns": m, "aging_ms": aging} if m is not None else {"aging_ms": aging}
         self.clk = Clk(t0)
-        self.model = RefScheduler(agents, t0, policy, m, aging)
+        self.model = RefScheduler(agents, t0, policy, UNLIMITED if m is None else m, aging)
+        self.dynamic = False  # queue membership changed during the history: the wait bound (fixed agent set) is not applied
         self.seen_reset = False
         self.seen_nonhead = False
         self.max_wait = 0
@@ -120,7 +148,19 @@ class Driver:
                   "consec_turns": dict(self.real["consec_turns"])}
         d.next_turn, d.on_yield = self.next_turn, self.on_yield
         d.seen_reset, d.seen_nonhead, d.max_wait = self.seen_reset, self.seen_nonhead, self.max_wait
+        d.dynamic = self.dynamic
         return d
+
+    # -- the driver owns the queue: it may take an agent out (bookkeeping entries stay) and put it back at the tail ---
+    def dequeue(self, agent, dynamic=True):
+        self.real["queue"].remove(agent)
+        self.model.queue.remove(agent)
+        self.dynamic = self.dynamic or dynamic
+
+    def enqueue(self, agent):
+        self.real["queue"].append(agent)
+        self.model.queue.append(agent)
+        self.dynamic = True
 
     # -- selection with purity / determinism / eligibility / argmax oracles -------------------------
     def select(self):
@@ -197,7 +237,7 @@ class Driver:
             model.rotate(agent)
         starving = model.count_wait(agent)
         self.max_wait = max(self.max_wait, max(model.wait.values()))
-        if starving is not None:
+        if starving is not None and not self.dynamic:
             n, m = len(model.queue), model.m
             raise Violation(f"agent {starving[0]!r} waited {starving[1]} selections of other agents; bound "
                             f"2*({n}-1)*{m}+1 = {wait_bound(n, m)}", None, "starvation")
@@ -220,16 +260,20 @@ def _param_sets(ns, ms, agings):
             for aging in agings:
                 for policy in POLICIES:
                     for rot in (False, True):
-                        heavy = (policy == "fair_queue" and aging > 0)
-                        sets.append(((heavy, n, m, aging), (n, m, aging, policy, rot)))
+                        # park: the lexicographically first agent is known to the bookkeeping but NOT queued (the driver
+                        # took it out before the first selection): "a queued agent", "all [queued] have used up ..."
+                        for park in ((False, True) if n >= 3 else (False,)):
+                            heavy = (policy == "fair_queue" and aging > 0)
+                            sets.append(((heavy, n - int(park), m, aging), (n, m, aging, policy, rot, park)))
     sets.sort(key=lambda x: x[0], reverse=True)  # heavy sets adjacent -> dealt round-robin over the shards
     return [p for _, p in sets]
 
 
 def _bfs_case(params, deltas, t0=100):
-    n, m, aging, policy, rot = params
-    return {"agents": AGENTS4[:n] if n <= 4 else (AGENTS4 + ["ä", "a"])[:n], "policy": policy, "m": m, "aging": aging,
-            "rotate": rot, "t0": t0, "steps": [["turn", d] for d in deltas]}
+    n, m, aging, policy, rot, park = params
+    agents = AGENTS4[:n] if n <= 4 else (AGENTS4 + ["ä", "a"])[:n]
+    return {"agents": agents, "policy": policy, "m": m, "aging": aging, "rotate": rot, "t0": t0,
+            "park": min(agents) if park else None, "steps": [["turn", d] for d in deltas]}
 
 
 def _path(parents, idx):
@@ -242,10 +286,13 @@ def _path(parents, idx):
 
 
 def _bfs_one(rec, params, deltas, max_states, notes):
-    n, m, aging, policy, rot = params
+    n, m, aging, policy, rot, park = params
     base = _bfs_case(params, [])
     try:
         root = Driver(base["agents"], base["t0"], policy, m, aging)
+        if base["park"] is not None:
+            root.dequeue(base["park"], dynamic=False)
+            n -= 1
     except Violation as v:
         rec.violation(v.message, base, v.sig)
         return
@@ -300,6 +347,8 @@ def _bfs_one(rec, params, deltas, max_states, notes):
     lab[f"policy={policy}"] += n_tr
     lab[f"n={n}"] += n_tr
     lab["paramsets"] += 1
+    if park:
+        lab["paramsets-with-parked-agent"] += 1
     lab["paramsets-saturated" if not capped else "paramsets-capped"] += 1
     if n_nt:
         rec.case(nontrivial=True, dig=None, n=n_nt, sample=sample if (n == 3 and m == 1) else None)
@@ -309,7 +358,7 @@ def _bfs_one(rec, params, deltas, max_states, notes):
         rec.label(k, v)
     if capped:
         rec.budget_hit = True
-    key = f"{policy[:2]}/n{n}/m{m}/aging{aging}/rot{int(rot)}"
+    key = f"{policy[:2]}/n{n}{'+parked' if park else ''}/m{m}/aging{aging}/rot{int(rot)}"
     notes[key + "/d=" + ",".join(map(str, deltas))] = (f"states={len(seen)} transitions={n_tr} depth={depth} max_wait={mw} "
                                                       f"bound={bound} saturated={not capped}")
 
@@ -334,11 +383,18 @@ def sub_bfs(rec, seed, shard, nshards, ns=(1, 2, 3, 4), ms=(1, 2, 3), agings=(0,
 
 def run_history(case):
     """case: {"agents","policy","m","aging","rotate","t0","steps":[...]}; steps:
-    ["turn", delta] | ["turn", delta, rotate, drift, consumed, reason] | ["adv", delta] | ["peek"]"""
+    ["turn", delta] | ["turn", delta, rotate, drift, consumed, reason] | ["adv", delta] | ["peek"] | ["deq", agent] |
+    ["enq", agent]; optional "park": agent taken out of the queue before the first step"""
     try:
         d = Driver(case["agents"], case["t0"], case["policy"], case["m"], case["aging"])
+        if case.get("park") is not None:
+            d.dequeue(case["park"], dynamic=False)
         for s in case["steps"]:
-            if s[0] == "adv":
+            if s[0] == "deq":
+                d.dequeue(s[1])
+            elif s[0] == "enq":
+                d.enqueue(s[1])
+            elif s[0] == "adv":
                 d.clk.t += s[1]
             elif s[0] == "peek":
                 d.select()
@@ -367,7 +423,7 @@ def replay_history(case):
 
 
 def _make_machine(rec):
-    from hypothesis.stateful import RuleBasedStateMachine, initialize, rule
+    from hypothesis.stateful import RuleBasedStateMachine, initialize, precondition, rule
 
     deltas = st.one_of(st.sampled_from([0, 0, 1, 1, 2, 3, 5, 7, 10, 199, 200, 201, 400]),
                        st.integers(-300, 1500), st.sampled_from([-1, -7, -200, -10 ** 6, 10 ** 9]))
@@ -388,15 +444,38 @@ def _make_machine(rec):
                 type(self)._vx_last["v"] = vv
                 raise vv
 
-        @initialize(agents=st.lists(st.sampled_from(NAME_POOL), min_size=1, max_size=6, unique=True),
-                    policy=st.sampled_from(POLICIES), m=st.sampled_from([1, 1, 2, 3, 4]),
-                    aging=st.sampled_from([0, 1, 5, 7, 200]), rotate=st.sampled_from(["never", "always", "mixed"]),
-                    t0=st.sampled_from([0, 100, 13371337, -5]))
-        def init(self, agents, policy, m, aging, rotate, t0):
+        @initialize(agents=st.one_of(st.lists(st.sampled_from(NAME_POOL), min_size=1, max_size=6, unique=True),
+                                     st.lists(st.sampled_from(NAME_POOL), min_size=3, max_size=6, unique=True)),
+                    policy=st.sampled_from(POLICIES), m=st.sampled_from([1, 1, 1, 2, 2, 3, 4, 50]),
+                    aging=st.sampled_from([0, 1, 5, 7, 200, 10 ** 6]), rotate=st.sampled_from(["never", "always", "mixed"]),
+                    t0=st.sampled_from([0, 100, 13371337, -5, 1_750_000_000_000]), dynamic=st.sampled_from([False, False, True]))
+        def init(self, agents, policy, m, aging, rotate, t0, dynamic):
             self.rotate = rotate
+            self.allow_dynamic = dynamic and len(agents) > 1
+            self.parked = []
             self.history.append({"agents": agents, "policy": policy, "m": m, "aging": aging,
                                  "rotate": rotate == "always", "t0": t0})
             self.d = self._guard(Driver, agents, t0, policy, m, aging)
+
+        # the driver owns the queue: an agent that is not ready is taken out (its bookkeeping entries stay) and later
+        # re-queued at the tail. The chosen agent must always be a QUEUED one, saturation is judged over the queue.
+        @precondition(lambda self: self.d is not None and self.allow_dynamic and len(self.d.real["queue"]) > 1)
+        @rule(i=st.integers(0, 5))
+        def dequeue(self, i):
+            q = self.d.real["queue"]
+            a = q[i % len(q)]
+            self.history.append(["deq", a])
+            self.d.dequeue(a)
+            self.parked.append(a)
+            self.lab["dequeue"] += 1
+
+        @precondition(lambda self: self.d is not None and bool(self.parked))
+        @rule(i=st.integers(0, 5))
+        def enqueue(self, i):
+            a = self.parked.pop(i % len(self.parked))
+            self.history.append(["enq", a])
+            self.d.enqueue(a)
+            self.lab["enqueue"] += 1
 
         @rule(delta=deltas)
         def advance(self, delta):
@@ -428,11 +507,19 @@ def _make_machine(rec):
             if d is None or rec is None:
                 return
             nt = d.seen_reset and d.seen_nonhead
-            labels = [f"agents={len(d.model.queue)}", f"policy={d.policy}", f"rotate={self.rotate}"]
+            labels = [f"agents={len(d.model.queue) + len(self.parked)}", f"policy={d.policy}", f"rotate={self.rotate}"]
+            if d.dynamic:
+                labels.append("queue-membership-changed")
+            if self.parked:
+                labels.append("ends-with-parked-agent")
+            if "max_consecutive_turns" not in d.fair:
+                labels.append("allowance=absent")
+            elif d.model.m >= 50:
+                labels.append("allowance>=50")
             labels += [k for k, v in self.lab.items() if v]
             if self.n_turns >= 100:
                 labels.append("turns>=100")
-            if d.max_wait == wait_bound(len(d.model.queue), d.model.m) and len(d.model.queue) > 1:
+            if d.max_wait == wait_bound(len(d.model.queue), d.model.m) and len(d.model.queue) > 1 and not d.dynamic:
                 labels.append("wait==bound")
             rec.case(nontrivial=nt, dig=digest(self.history) if nt else None, labels=labels,
                      sample={"init": self.history[0], "first_steps": self.history[1:9], "turns": self.n_turns,
@@ -456,7 +543,7 @@ BOUNDARY_KEYS = {"T1": ("t1_iters", "t1_pops"), "T2": ("t2_k",), "T3": ("t3_ops"
 def decisions(draw):
     route = draw(st.sampled_from(["config", "config", "dict"]))
     quantum = draw(st.sampled_from([1, 2, 5, 20, 20, 50]))
-    wall_mode = draw(st.sampled_from(["eq", "gt", "gt", "none", "lt"] if route == "dict" else ["eq", "gt", "gt", "default"]))
+    wall_mode = draw(st.sampled_from(["eq", "gt", "gt", "none", "lt"] if route == "dict" else ["eq", "gt", "gt", "default", "none"]))
     wall = {"eq": quantum, "gt": quantum + draw(st.sampled_from([1, 3, 30])), "lt": max(1, quantum - draw(st.sampled_from([1, 4]))),
             "none": None, "default": "default"}[wall_mode]
     stage = {}
@@ -484,8 +571,11 @@ def decisions(draw):
     anchors = [0, quantum - 1, quantum, quantum + 1]
     if eff_wall is not None:
         anchors += [eff_wall - 1, eff_wall, eff_wall + 1, eff_wall + 1000]
-    consumed["ms"] = max(0, draw(st.sampled_from(anchors)))
-    return {"route": route, "quantum": quantum, "wall": wall, "stage": stage, "consumed": consumed, "boundary": boundary}
+    consumed["ms"] = max(0, draw(st.sampled_from(anchors + [10 ** 9])))
+    return {"route": route, "quantum": quantum, "wall": wall, "stage": stage, "consumed": consumed, "boundary": boundary,
+            # the rest of the slice context and the spelling of numbers in the configuration must not matter
+            "slice": draw(st.sampled_from([None, None, [0, 0, "A"], [2, 13371337, "b"], [7, -5, ""]])),
+            "str_numbers": draw(st.sampled_from([False, False, False, True])) if route == "config" else False}
 
 
 def _decision_budgets(case):
@@ -497,7 +587,9 @@ def _decision_budgets(case):
         b = dict(case["stage"])
         if case["wall"] != "default":
             b["wall_ms"] = case["wall"]
-        cfg = validated_cfg({"scheduler": {"enabled": True, "quantum_ms": case["quantum"], "budgets": b}})
+        conv = (lambda v: str(v) if (case.get("str_numbers") and isinstance(v, int)) else v)  # the validator coerces "5" -> 5
+        cfg = validated_cfg({"scheduler": {"enabled": True, "quantum_ms": conv(case["quantum"]),
+                                           "budgets": {k: conv(v) for k, v in b.items()}}})
         ctx = make_ctx(cfg)
         got = _derive_budgets(ctx)
         plain = json.loads(json.dumps(cfg["scheduler"]))
@@ -523,7 +615,8 @@ def check_decision(case, rec=None):
 
     budgets = _decision_budgets(case)
     consumed = dict(case["consumed"])
-    sc = {"slice_idx": 1, "started_ms": 0, "budgets": budgets, "agent_id": "A"}
+    sl = case.get("slice") or [1, 0, "A"]
+    sc = {"slice_idx": sl[0], "started_ms": sl[1], "budgets": budgets, "agent_id": sl[2]}
     b0, c0 = json.dumps(budgets, sort_keys=True), json.dumps(consumed, sort_keys=True)
     r1 = _should_yield(sc, consumed)
     r2 = _should_yield(sc, consumed)
@@ -547,6 +640,10 @@ def check_decision(case, rec=None):
             labels.append("multi-budget")
         if any(v == 0 for v in budgets.values()):
             labels.append("zero-budget")
+        if case.get("slice"):
+            labels.append("slice-ctx-varied")
+        if case.get("str_numbers"):
+            labels.append("numbers-as-strings")
         nt = fired >= 2
         rec.case(nontrivial=nt, dig=digest(case) if nt else None, labels=labels,
                  sample={"budgets": budgets, "consumed": consumed, "result": r1} if nt else None)
@@ -567,57 +664,185 @@ def replay_decision(case):
 
 SLOTS = ["T1", "T2", "T3", "speak", "T4", "Apply"]          # callables that advance the scripted clock
 BOUNDARIES = ["T1", "T2", "T3", "T4", "Apply"]               # documented yield points
-CALLS_UNTIL = {"T1": ["T1"], "T2": ["T1", "T2"], "T3": ["T1", "T2", "T3"], "T4": ["T1", "T2", "T3", "speak", "T4"],
-               "Apply": SLOTS, None: SLOTS}
+SEGMENT = {"T1": ["T1"], "T2": ["T2"], "T3": ["T3"], "T4": ["speak", "T4"], "Apply": ["Apply"]}  # slots ending at a boundary
 LOGS_OF = {"T1": ["t1.jsonl"], "T2": ["t2.jsonl"], "T3": [], "speak": ["t3.jsonl", "t3_plan.jsonl", "t3_dialogue.jsonl"],
            "T4": ["t4.jsonl"], "Apply": ["apply.jsonl"]}
-EP_TEXTS = ["apple pear", "apple", "fig plum", "kiwi lime apple", "pear", "nut yam pea", "Äpfel app"]
+LOG_FILES = ["scheduler.jsonl", "turn.jsonl", "t1.jsonl", "t2.jsonl", "t3.jsonl", "t3_plan.jsonl", "t3_dialogue.jsonl",
+             "t4.jsonl", "apply.jsonl"]
+EP_TEXTS = ["apple pear", "apple", "fig plum", "kiwi lime apple", "pear", "nut yam pea", "Äpfel app", "date zzz", "plum pea yam"]
+BUDGET_KEYS = ["t1_pops", "t1_iters", "t2_k", "t3_ops"]
+STAGE_OF_KEY = {"t1_pops": "T1", "t1_iters": "T1", "t2_k": "T2", "t3_ops": "T3"}
+KEYS_OF_STAGE = {"T1": ["t1_pops", "t1_iters"], "T2": ["t2_k"], "T3": ["t3_ops"]}
+TIGHT = {"t1_pops": [0, 1, 2], "t1_iters": [0, 1], "t2_k": [0, 1, 2], "t3_ops": [0, 1, 2]}
+MID = {"t1_pops": [3, 4, 6], "t1_iters": [2, 3], "t2_k": [3, 4], "t3_ops": [2, 3]}
+LOOSE = {"t1_pops": [None, 5000, 10 ** 9, "absent"], "t1_iters": ["absent", "absent", 50, None, 10 ** 9],
+         "t2_k": [None, 64, "absent", 10 ** 9], "t3_ops": [None, 5, 5, "absent", 10 ** 9]}
+
+
+def _layout(t4_enabled=True):
+    """(slots, boundaries, slots executed until a yield at each boundary) for this configuration (t4.enabled is the
+    documented kill switch: no T4 / Apply stage, hence no T4 / Apply boundary)."""
+    slots = list(SLOTS) if t4_enabled else ["T1", "T2", "T3", "speak"]
+    bounds = list(BOUNDARIES) if t4_enabled else ["T1", "T2", "T3"]
+    until = {None: slots}
+    for b in bounds:
+        last = SEGMENT[b][-1]
+        until[b] = slots[:slots.index(last) + 1]
+    return slots, bounds, until
+
+
+def _spread(draw, total, slots):
+    """Split `total` ms over `slots` (random composition)."""
+    out = {s: 0 for s in slots}
+    if not slots or total <= 0:
+        return out
+    cuts = sorted(draw(st.integers(0, total)) for _ in range(len(slots) - 1))
+    prev = 0
+    for s, c in zip(slots, cuts + [total]):
+        out[s] = c - prev
+        prev = c
+    return out
+
+
+@st.composite
+def _budget_draw(draw, target, forced, chaos):
+    """scheduler.budgets stage keys. Stages BEFORE the target boundary get loose / mid budgets (the road to the target
+    stays open most of the time), the target's own and later stages anything."""
+    ti = BOUNDARIES.index(target) if target in BOUNDARIES else len(BOUNDARIES)
+    out = {}
+    for k in BUDGET_KEYS:
+        si = BOUNDARIES.index(STAGE_OF_KEY[k])
+        if k in forced:
+            cls = "tight"
+        elif chaos:
+            cls = draw(st.sampled_from(["loose", "mid", "tight"]))
+        elif si < ti:
+            cls = draw(st.sampled_from(["loose"] * 9 + ["mid"]))
+        else:
+            cls = draw(st.sampled_from(["loose", "loose", "mid", "tight", "tight"]))
+        v = draw(st.sampled_from({"tight": TIGHT, "mid": MID, "loose": LOOSE}[cls][k]))
+        if v != "absent":
+            out[k] = v
+    return out
 
 
 @st.composite
 def turn_cases(draw):
     from harness.world import graph_specs, texts_for
 
-    gids = draw(st.sampled_from([["g1"], ["g1"], ["g2", "g1"]]))
-    graphs = {g: draw(graph_specs(max_nodes=5, max_edges=6)) for g in gids}
+    gids = draw(st.sampled_from([["g1"], ["g1"], ["g2", "g1"], ["g1", "g3", "g2"]]))
+    big = draw(st.sampled_from([False, False, True]))  # larger graphs: mid-size pop / layer budgets bind
+    graphs = {g: draw(graph_specs(max_nodes=8 if big else 5, max_edges=14 if big else 6)) for g in gids}
     text = draw(texts_for(graphs))
-    _ep = st.tuples(st.sampled_from(EP_TEXTS), st.sampled_from(["A", "A", "world"]))
-    eps = draw(st.one_of(st.lists(_ep, max_size=4), st.lists(_ep, min_size=3, max_size=6)))
-    q = draw(st.sampled_from([1, 5, 20]))
-    wall = q + draw(st.sampled_from([0, 5, 180]))
-    target = draw(st.sampled_from(BOUNDARIES + ["none"]))
+    chain = False
+    g0 = graphs[gids[0]]
+    if len(g0["nodes"]) >= 3 and draw(st.integers(0, 2)) == 0:
+        # a path through all nodes of the first graph starting at a seed: propagation has several layers to go
+        chain = True
+        ns = g0["nodes"]
+        ns[0]["label"] = ns[0]["label"] or "kiwi"
+        for j in range(len(ns) - 1):
+            g0["edges"].append({"id": f"c{j}", "src": ns[j]["id"], "dst": ns[j + 1]["id"], "w": draw(st.sampled_from([1.0, 0.9])),
+                                "rel": "supports"})
+        text = (text + " " + ns[0]["label"]).strip()
+    node_labels = sorted({str(n["label"]).lower() for sp in graphs.values() for n in sp["nodes"] if n["label"]})
+    _ep = st.tuples(st.sampled_from(EP_TEXTS + node_labels), st.sampled_from(["A", "A", "world"]))
+    eps = draw(st.one_of(st.lists(_ep, max_size=4), st.lists(_ep, min_size=3, max_size=8)))
+    t4_enabled = draw(st.sampled_from([True] * 7 + [False]))
+    slots, bounds, _ = _layout(t4_enabled)
+    q = draw(st.sampled_from([1, 2, 5, 5, 20]))
+    wall_mode = draw(st.sampled_from(["eq", "+1", "+5", "+180", "+180", "default", "none"]))
+    wall = {"eq": q, "+1": q + 1, "+5": q + 5, "+180": q + 180, "default": "absent", "none": None}[wall_mode]
+    wall_eff = 200 if wall == "absent" else wall
+    # later boundaries are only reached when nothing stops the turn earlier: weight them up
+    target = draw(st.sampled_from([b for b in bounds for _ in range({"T3": 2, "T4": 3, "Apply": 2}.get(b, 1))] + ["none"]))
     kind = draw(st.sampled_from(["budget", "wall", "quantum", "budget+quantum", "budget+wall"]))
-    budgets = {"wall_ms": wall}
-    loose = {"t1_pops": [None, 5000], "t1_iters": ["absent"], "t2_k": [None, 64, "absent"], "t3_ops": [None, 5, 5, "absent"]}
-    tight = {"t1_pops": [0, 1, 2], "t1_iters": [0, 1], "t2_k": [0, 1, 2], "t3_ops": [0, 1, 2]}
-    keys_of = {"T1": ["t1_pops", "t1_iters"], "T2": ["t2_k"], "T3": ["t3_ops"]}
-    tighten = set()
-    if "budget" in kind and target in keys_of:
-        tighten.add(draw(st.sampled_from(keys_of[target])))
-    for k in loose:
-        if draw(st.integers(0, 24)) == 0:
-            tighten.add(k)
-    if draw(st.integers(0, 5)) == 0:
-        tighten.add("t2_k")  # more hits than the slice may use: the budget has to bind
-    for k in loose:
-        v = draw(st.sampled_from(tight[k] if k in tighten else loose[k]))
-        if v != "absent":
-            budgets[k] = v
-    dur = {s: draw(st.sampled_from([0, 0, 0, 0, 1])) for s in SLOTS}
-    if target != "none":
-        slot = target if target != "T4" else draw(st.sampled_from(["speak", "T4"]))
+    forced = set()
+    if "budget" in kind and target in KEYS_OF_STAGE:
+        forced.add(draw(st.sampled_from(KEYS_OF_STAGE[target])))
+    if draw(st.integers(0, 5 if target in ("T1", "T2", "none") else 14)) == 0:
+        forced.add("t2_k")  # more hits than the slice may use: the budget has to bind
+    budgets = draw(_budget_draw(target, forced, chaos=draw(st.integers(0, 7)) == 0))
+    if chain and "t1_iters" not in forced and draw(st.integers(0, 1 if target in ("T1", "none") else 5)) == 0:
+        v = draw(st.sampled_from([0, 1, 2, 3]))
+        budgets["t1_iters"] = v
+    if wall != "absent":
+        budgets["wall_ms"] = wall
+    # ---- scripted stage durations -------------------------------------------------------------------
+    style = draw(st.sampled_from(["slot", "cum", "cum"]))
+    dur = {s: 0 for s in SLOTS}
+    if target == "none":
+        dur.update(_spread(draw, draw(st.sampled_from([0, q - 1, q - 1])), slots))  # the slice stays below the quantum
+    else:
+        seg = [s for s in SEGMENT[target] if s in slots]
+        earlier = slots[:slots.index(seg[0])]
         if "quantum" in kind:
-            dur[slot] += q
-        if "wall" in kind:
-            dur[slot] += wall
+            amount = q + draw(st.sampled_from([0, 0, 1]))
+        elif "wall" in kind:
+            amount = max(0, (wall_eff if wall_eff is not None else q) + draw(st.sampled_from([0, 0, 1, -1])))
+        else:
+            amount = draw(st.sampled_from([0, 0, q - 1]))
+        # "cum": the threshold is crossed by the SUM of several stages, every earlier boundary stays below the quantum
+        pre = draw(st.integers(0, min(q - 1, amount))) if (style == "cum" and earlier) else 0
+        dur.update(_spread(draw, pre, earlier))
+        dur.update(_spread(draw, amount - pre, seg))
+        for s in slots[slots.index(seg[-1]) + 1:]:
+            dur[s] = draw(st.sampled_from([0, 0, 0, 1]))
+        if style == "slot":
+            for s in earlier:
+                dur[s] += draw(st.sampled_from([0, 0, 0, 0, 1]))
     mode = draw(st.sampled_from(["file", "file", "capture"]))
     policy = draw(st.sampled_from(POLICIES))
-    # an earlier slice of the same agent on the same state (same text, graph version unchanged) under OTHER slice budgets:
-    # whatever the engine kept from it (stage caches) must not loosen or tighten this slice's clamps
-    warm = draw(st.sampled_from([None, None, {}, {"t1_pops": 5000, "t1_iters": 50}, {"t1_pops": 1}, {"t1_pops": 0, "t1_iters": 0},
-                                 {"t1_iters": 1}, {"t1_pops": 3, "t1_iters": 2}]))
+    # an earlier T1 evaluation of the same agent on the same state (same text, graph version unchanged) under OTHER slice
+    # budgets: whatever the engine kept from it (stage caches) must not loosen or tighten this slice's clamps
+    warm = draw(st.sampled_from([None, None, None, None, "derived", "derived", {}, {"t1_pops": 5000, "t1_iters": 50}, {"t1_pops": 1},
+                                 {"t1_pops": 0, "t1_iters": 0}, {"t1_iters": 1}, {"t1_pops": 3, "t1_iters": 2}]))
+    binding = [k for k in ("t1_pops", "t1_iters") if isinstance(budgets.get(k), int) and budgets[k] < 50]
+    if binding and draw(st.booleans()):
+        warm = "derived"
+    if warm == "derived":  # the measured slice's own T1 budgets with ONE of them changed: the other cache-key parts are equal
+        warm = {k: budgets[k] for k in ("t1_pops", "t1_iters") if budgets.get(k) is not None}
+        if binding:  # a LOOSER earlier evaluation: serving its result now would break this slice's clamp
+            k = draw(st.sampled_from(binding))
+            v = draw(st.sampled_from([None, None, 50, 5000, budgets[k] + 1, budgets[k] + 2]))
+        else:
+            k = draw(st.sampled_from(["t1_iters", "t1_iters", "t1_pops"]))
+            v = draw(st.sampled_from([None, 0, 1, 2, 3, 50, 5000]))
+        warm.pop(k, None)
+        if v is not None:
+            warm[k] = v
+    # an earlier complete SLICE (run_turn) on the same state, usually yielding before Apply (graph / state version unchanged,
+    # so every cache level stays valid), under other budgets or with scheduling off; optionally on the same ctx object
+    prev = None
+    if draw(st.integers(0, 2)) == 0:
+        pq_ = draw(st.sampled_from([1, 5, 20]))
+        stop = draw(st.sampled_from(["T1", "T2", "T2", "T3", "T3", "full"]))
+        pb = dict(budgets)
+        pb.pop("wall_ms", None)
+        if draw(st.booleans()):  # differs from the measured slice in ONE stage budget: everything else in the cache keys is equal
+            binding = [k for k in BUDGET_KEYS if isinstance(budgets.get(k), int) and budgets[k] < 50]
+            if binding and draw(st.booleans()):  # ... a LOOSER one: serving its cached result now would break this slice's clamp
+                k = draw(st.sampled_from(binding))
+                v = draw(st.sampled_from(["absent", None, 5000, budgets[k] + 1, budgets[k] + 2]))
+            else:
+                k = draw(st.sampled_from(BUDGET_KEYS))
+                v = draw(st.sampled_from(TIGHT[k] + MID[k] + LOOSE[k]))
+            pb.pop(k, None)
+            if v != "absent":
+                pb[k] = v
+        else:
+            pb = draw(_budget_draw("none", set(), chaos=True))
+        pdur = {s: 0 for s in SLOTS}
+        if stop != "full":
+            pdur[SEGMENT[stop][-1]] = pq_
+        prev = {"enabled": draw(st.integers(0, 3)) != 0, "quantum": pq_, "budgets": pb, "dur": pdur,
+                "same_ctx": draw(st.booleans()), "policy": draw(st.sampled_from(POLICIES))}
     return {"graphs": graphs, "active": gids, "text": text, "episodes": [list(e) for e in eps], "quantum": q,
-            "budgets": budgets, "dur": dur, "mode": mode, "policy": policy, "warm": warm,
+            "budgets": budgets, "dur": dur, "mode": mode, "policy": policy, "warm": warm, "prev": prev,
+            "t4_enabled": t4_enabled, "slice_idx": draw(st.sampled_from([None, None, None, 0, 1, 4])),
+            "clock0": draw(st.sampled_from([0, 0, 1000, 123457])),
+            "str_numbers": draw(st.sampled_from([False, False, False, True])),  # "5" for 5: the validator coerces
+            "plan": [target, kind, style],
             "sim_threshold": draw(st.sampled_from([None, -1.0, -1.0]))}  # -1.0: every owned episode is a hit
 
 
@@ -635,9 +860,9 @@ class _StageCrash(Exception):
 class _FakeTime:
     """Stands in for the `time` module inside orchestrator.core: perf_counter is the scripted clock."""
 
-    def __init__(self, real):
+    def __init__(self, real, ms=0):
         self._real = real
-        self.ms = 0
+        self.ms = ms
 
     def perf_counter(self):
         return self.ms / 1000.0
@@ -646,41 +871,119 @@ class _FakeTime:
         return getattr(self._real, name)
 
 
+class _HeapqShim:
+    """Stands in for `heapq` inside stages/t1: counts the pops T1 really performs (independent of its own metrics)."""
+
+    def __init__(self, real, log):
+        self._real = real
+        self._log = log
+
+    def heappop(self, h):
+        self._log.append(None)
+        return self._real.heappop(h)
+
+    def __getattr__(self, name):
+        return getattr(self._real, name)
+
+
+def _store_view(state):
+    """What T1 / T2 can see of the active graphs right now: read from the live store before a slice runs."""
+    store = state["store"]
+    view = {}
+    for gid in state["active_graphs"]:
+        g = store.get_graph(gid)
+        nodes = []
+        for n in g.nodes.values():
+            kws = [str(n.label)] if getattr(n, "label", None) else []
+            try:
+                tags = list((getattr(n, "attrs", None) or {}).get("tags", []) or [])
+            except Exception:
+                tags = []
+            kws += [t for t in tags if isinstance(t, str) and t]
+            nodes.append((n.id, str(n.label) if getattr(n, "label", None) else None, kws))
+        view[gid] = {"nodes": nodes, "edges": [(e.src, e.dst) for e in g.edges.values()]}
+    return view
+
+
+def _reach(gv, text, hops):
+    """(seed nodes, nodes within `hops` directed hops of a seed) for one graph view."""
+    t = (text or "").lower()
+    seeds = {nid for nid, _, kws in gv["nodes"] if any(k.lower() in t for k in kws)}
+    allowed, frontier = set(seeds), set(seeds)
+    for _ in range(min(int(hops), len(gv["nodes"]) + len(gv["edges"]) + 1)):
+        nxt = {d_ for s_, d_ in gv["edges"] if s_ in frontier} - allowed
+        if not nxt:
+            break
+        allowed |= nxt
+        frontier = nxt
+    return seeds, allowed
+
+
+def _sched_overrides(spec, strs):
+    conv = (lambda v: str(v) if (strs and isinstance(v, int) and not isinstance(v, bool)) else v)
+    if not spec.get("enabled", True):
+        return {"enabled": False, "budgets": {k: conv(v) for k, v in spec["budgets"].items()}}
+    return {"enabled": True, "policy": spec["policy"], "quantum_ms": conv(spec["quantum"]),
+            "budgets": {k: conv(v) for k, v in spec["budgets"].items()}}
+
+
 def check_turn(case, rec=None):
     import clematis.engine.orchestrator as orch
     import clematis.engine.orchestrator.core as core
+    import clematis.engine.stages.t1 as t1mod
     from clematis.memory.index import InMemoryIndex
     from clematis.adapters.embeddings import DeterministicEmbeddingAdapter
     from harness.world import sandbox, validated_cfg, make_ctx, build_store, reset_engine_globals
 
-    calls, results, at_ms = [], {}, {}
     missing = object()
     pkg_names = ["t1_propagate", "t2_semantic", "t3_deliberate", "t3_dialogue"]
     saved_pkg = {n: orch.__dict__.get(n, missing) for n in pkg_names}
     saved_core = {n: getattr(core, n) for n in ("t4_filter", "apply_changes", "time")}
-    ft = _FakeTime(saved_core["time"])
+    saved_heapq = t1mod.__dict__.get("heapq", missing)
+    ft = _FakeTime(saved_core["time"], int(case.get("clock0") or 0))
+    poplog = []      # one entry per real heap pop (None) / per graph whose propagation starts (("g", gid))
+    cur = {}         # recorders of the slice being executed
 
     def wrap(name, fn):
         def w(*a, **k):
             # the one-shot RAG refinement re-enters retrieval from inside T3 (after deliberation): part of T3, not a stage
-            tag = "rag" if (name == "T2" and "T3" in calls) else name
-            calls.append(tag)
+            tag = "rag" if (name == "T2" and "T3" in cur["calls"]) else name
+            cur["calls"].append(tag)
+            mark = len(poplog)
             try:
                 r = fn(*a, **k)
             except Exception as e:  # a crash INSIDE a stage is that stage's property (C11-C13), not scheduling
                 raise _StageCrash(f"{tag}: {type(e).__name__}: {e}") from e
-            results.setdefault(tag, r)
-            ft.ms += int(case["dur"][name])
-            at_ms[tag] = ft.ms
+            cur["results"].setdefault(tag, r)
+            if name in ("speak", "T4"):  # the plan that is carried on after deliberation (+ the optional RAG refinement)
+                pl = a[1] if name == "speak" else (a[4] if len(a) > 4 else None)
+                cur["plan_ops"][tag] = len(list(getattr(pl, "ops", None) or []))
+            if name == "T1":
+                per, g_ = {}, None
+                for x in poplog[mark:]:
+                    if x is None:
+                        if g_ is not None:
+                            per[g_] = per.get(g_, 0) + 1
+                    else:
+                        g_ = x[1]
+                        per.setdefault(g_, 0)
+                cur["pops"] = per
+            ft.ms += int(cur["dur"].get(name, 0))
+            cur["at_ms"][tag] = ft.ms - cur["t0"]
             return r
         return w
 
+    main = {"enabled": True, "quantum": case["quantum"], "budgets": case["budgets"], "dur": case["dur"],
+            "policy": case["policy"], "mode": case["mode"], "same_ctx": False}
+    specs = []
+    if case.get("prev"):
+        specs.append(dict(case["prev"], mode="file", is_prev=True))
+        main["same_ctx"] = bool(case["prev"].get("same_ctx"))
+    specs.append(main)
+    observed = []
+
     with sandbox("vx_c17_") as d:
         reset_engine_globals()
-        cfg = validated_cfg({"scheduler": {"enabled": True, "policy": case["policy"], "quantum_ms": case["quantum"],
-                                           "budgets": dict(case["budgets"])},
-                             "t4": {"snapshot_dir": os.path.join(d, "snap")},
-                             **({"t2": {"sim_threshold": case["sim_threshold"]}} if case.get("sim_threshold") is not None else {})})
         idx = InMemoryIndex()
         enc = DeterministicEmbeddingAdapter(dim=32)
         for i, (txt, owner) in enumerate(case["episodes"]):
@@ -688,22 +991,18 @@ def check_turn(case, rec=None):
                      "ts": "2025-06-15T00:00:00Z", "aux": {}})
         state = {"store": build_store(case["graphs"]), "active_graphs": list(case["active"]), "mem_index": idx,
                  "_boot_loaded": True, "version_etag": "0"}
-        ctx = make_ctx(cfg, agent="A", turn_id=7)
-        if case.get("warm") is not None:
-            wctx = make_ctx(cfg, agent="A", turn_id=6)
-            if case["warm"]:
-                wctx.slice_budgets = dict(case["warm"])
-            try:
-                core._t1_propagate(wctx, state, case["text"])
-            except Exception:
-                pass  # a crash inside the stage is C12's business
-        capture = {}
-        if case["mode"] == "capture":  # the demo driver's mode: the orchestrator hands the event over instead of writing it
-            ctx._driver_writes_scheduler_log = True
-            ctx._sched_capture = capture
-            ctx._sched_pick_reason = "ROUND_ROBIN"
-        slice_budgets = ref_derive_budgets(json.loads(json.dumps(cfg["scheduler"])))
+        store = state["store"]
+        orig_csr = store.csr
+
+        def csr_spy(gid, *a, **k):  # T1 fetches the adjacency of a graph right before it starts popping for it
+            poplog.append(("g", gid))
+            return orig_csr(gid, *a, **k)
+
+        seen_lines = {fn: 0 for fn in LOG_FILES}
+        ctx = None
         try:
+            store.csr = csr_spy
+            t1mod.heapq = _HeapqShim(saved_heapq if saved_heapq is not missing else __import__("heapq"), poplog)
             orch.t1_propagate = wrap("T1", core._t1_propagate)
             orch.t2_semantic = wrap("T2", core._t2_semantic)
             orch.t3_deliberate = wrap("T3", lambda c, s, bundle: core.deliberate(bundle))
@@ -711,15 +1010,68 @@ def check_turn(case, rec=None):
             core.t4_filter = wrap("T4", core._t4_filter)
             core.apply_changes = wrap("Apply", core._default_apply_changes)
             core.time = ft
-            try:
-                res = core.Orchestrator().run_turn(ctx, state, case["text"])
-            except _StageCrash as e:
-                if rec is not None:
-                    rec.case(nontrivial=False, labels=["discarded:stage-raised"])
-                    rec.note("stage_raised_example", str(e)[:300])
-                return
-            except Exception as e:
-                raise Violation(f"scheduled turn raised {type(e).__name__}: {e} after stages {calls}", case, "turn-raises")
+            for si, spec in enumerate(specs):
+                over = {"scheduler": _sched_overrides(spec, bool(case.get("str_numbers"))),
+                        "t4": {"snapshot_dir": os.path.join(d, "snap"),
+                               **({"enabled": False} if not case.get("t4_enabled", True) else {})},
+                        **({"t2": {"sim_threshold": case["sim_threshold"]}} if case.get("sim_threshold") is not None else {})}
+                cfg = validated_cfg(over)
+                if ctx is None or not spec.get("same_ctx"):
+                    ctx = make_ctx(cfg, agent="A", turn_id=7)
+                    if si == len(specs) - 1 and case.get("slice_idx") is not None:
+                        ctx.slice_idx = case["slice_idx"]  # a resumed slice: the driver's ctx already counted earlier ones
+                else:
+                    ctx.cfg = ctx.config = cfg
+                if si == len(specs) - 1 and case.get("warm") is not None:
+                    wctx = make_ctx(cfg, agent="A", turn_id=6)
+                    if case["warm"]:
+                        wctx.slice_budgets = dict(case["warm"])
+                    try:
+                        core._t1_propagate(wctx, state, case["text"])
+                    except Exception:
+                        pass  # a crash inside the stage is C12's business
+                capture = {}
+                for attr in ("_driver_writes_scheduler_log", "_sched_capture", "_sched_pick_reason"):
+                    if hasattr(ctx, attr):
+                        delattr(ctx, attr)
+                if spec["mode"] == "capture":  # the demo driver's mode: the orchestrator hands the event over instead of writing it
+                    ctx._driver_writes_scheduler_log = True
+                    ctx._sched_capture = capture
+                    ctx._sched_pick_reason = "ROUND_ROBIN"
+                # the turn-level T2 cache (state["_cache_mgr"]) can serve retrieval without calling the stage at all: observe it
+                cm = state.get("_cache_mgr")
+                if cm is not None and not getattr(cm, "_vx_spied", False):
+                    def spy_get(ns, key, _orig=cm.get):
+                        out = _orig(ns, key)
+                        if ns == "t2:semantic" and isinstance(out, tuple) and out and out[0] and "T2" not in cur["calls"]:
+                            cur["calls"].append("T2")
+                            cur["results"].setdefault("T2", out[1])
+                            cur["at_ms"]["T2"] = ft.ms - cur["t0"]
+                            cur["t2_turn_cache_hit"] = True
+                        return out
+                    cm.get = spy_get
+                    cm._vx_spied = True
+                view = _store_view(state)
+                cur = {"calls": [], "results": {}, "at_ms": {}, "dur": spec["dur"], "t0": ft.ms, "pops": {}, "plan_ops": {}}
+                idx_before = getattr(ctx, "slice_idx", None)
+                try:
+                    res = core.Orchestrator().run_turn(ctx, state, case["text"])
+                except _StageCrash as e:
+                    if rec is not None:
+                        rec.case(nontrivial=False, labels=["discarded:stage-raised"])
+                        rec.note("stage_raised_example", str(e)[:300])
+                    return
+                except Exception as e:
+                    raise Violation(f"scheduled turn raised {type(e).__name__}: {e} after stages {cur['calls']}", case, "turn-raises")
+                logs = {}
+                for fn in LOG_FILES:
+                    allr = _read_jsonl(os.path.join(d, "logs", fn))
+                    logs[fn] = allr[seen_lines[fn]:]
+                    seen_lines[fn] = len(allr)
+                ft.ms += 3  # the driver's own time between two slices is nobody's slice time
+                observed.append(dict(cur, spec=spec, res=res, logs=logs, capture=dict(capture), view=view,
+                                     sched_cfg=json.loads(json.dumps(cfg["scheduler"])), idx_before=idx_before,
+                                     idx_after=getattr(ctx, "slice_idx", None)))
         finally:
             for n, v in saved_pkg.items():
                 if v is missing:
@@ -728,25 +1080,71 @@ def check_turn(case, rec=None):
                     setattr(orch, n, v)
             for n, v in saved_core.items():
                 setattr(core, n, v)
-        logs = {fn: _read_jsonl(os.path.join(d, "logs", fn)) for fn in
-                ["scheduler.jsonl", "turn.jsonl", "t1.jsonl", "t2.jsonl", "t3.jsonl", "t3_plan.jsonl", "t3_dialogue.jsonl",
-                 "t4.jsonl", "apply.jsonl"]}
+            if saved_heapq is missing:
+                t1mod.__dict__.pop("heapq", None)
+            else:
+                t1mod.heapq = saved_heapq
+            store.__dict__.pop("csr", None)
 
+    labels, nt, sample = [], False, None
+    for ob in observed:
+        if not ob["spec"].get("enabled", True):
+            labels.append("prev:scheduling-off")
+            continue  # the property speaks about slices with scheduling enabled
+        lb, nt_, smp = _check_slice(case, ob)
+        if ob["spec"].get("is_prev"):
+            labels += ["prev:" + x for x in lb if x.startswith(("stage_end=", "reason="))]
+        else:
+            labels += lb
+            nt, sample = nt_, smp
+    if rec is not None:
+        if case.get("prev"):
+            labels.append("prev-slice")
+            if case["prev"].get("same_ctx"):
+                labels.append("prev-slice:same-ctx")
+        if case.get("warm") is not None:
+            labels.append("warm-t1")
+        if case.get("slice_idx") is not None and not (case.get("prev") and case["prev"].get("same_ctx")):
+            labels.append("ctx.slice_idx-preset")
+        if not case.get("t4_enabled", True):
+            labels.append("t4-disabled")
+        if case.get("str_numbers"):
+            labels.append("numbers-as-strings")
+        labels.append(f"graphs={len(case['active'])}")
+        if case.get("plan"):
+            got = [x for x in labels if x.startswith("stage_end=")]
+            labels.append(f"planned={case['plan'][0]}:{'reached' if got and got[-1] == 'stage_end=' + str(case['plan'][0]).replace('none', 'None') else 'not-reached'}")
+            labels.append(f"time-style={case['plan'][2]}")
+        rec.case(nontrivial=nt, dig=digest(case) if nt else None, labels=labels, sample=sample if nt else None)
+
+
+def _check_slice(case, ob):
+    """All oracles for one executed slice (scheduling enabled). -> (labels, nontrivial, sample)"""
+    spec, res, logs, calls, results, at_ms = ob["spec"], ob["res"], ob["logs"], ob["calls"], ob["results"], ob["at_ms"]
+    slots, bounds, calls_until = _layout(case.get("t4_enabled", True))
+    slice_budgets = ref_derive_budgets(ob["sched_cfg"])
+    for k, v in spec["budgets"].items():  # every configured, non-null budget reaches the slice unchanged
+        if v is not None and slice_budgets.get(k) != int(v):
+            raise Violation(f"configured budget {k}={v} is not what the validated configuration hands to the slice: "
+                            f"{ob['sched_cfg']}", case, "derive-budgets")
     if not hasattr(res, "line"):
         raise Violation(f"run_turn returned {res!r}, not a turn result", case, "turn-result")
-    events = [dict(capture)] if (case["mode"] == "capture" and capture) else list(logs["scheduler.jsonl"])
-    if case["mode"] == "capture" and logs["scheduler.jsonl"]:
+    capture = ob["capture"]
+    events = [dict(capture)] if (spec["mode"] == "capture" and capture) else list(logs["scheduler.jsonl"])
+    if spec["mode"] == "capture" and logs["scheduler.jsonl"]:
         raise Violation("driver-logging mode: orchestrator wrote scheduler.jsonl itself", case, "capture-mode")
     if len(events) > 1:
         raise Violation(f"{len(events)} yield events for one turn: {events}", case, "multi-yield")
     ev = events[0] if events else None
     stage_end = ev.get("stage_end") if ev else None
-    if ev is not None and stage_end not in BOUNDARIES:
-        raise Violation(f"yield event with stage_end={stage_end!r}: not a stage boundary", case, "not-a-boundary")
+    if ev is not None and stage_end not in bounds:
+        raise Violation(f"yield event with stage_end={stage_end!r}: not a stage boundary (boundaries of this configuration: "
+                        f"{bounds})", case, "not-a-boundary")
 
-    # consumption at each boundary, rebuilt from what the stages really returned and the scripted clock
+    # consumption at each boundary, rebuilt from what the stages really returned and the scripted clock, measured from the
+    # start of THIS slice
     def consumed_at(b):
-        c = {"ms": at_ms[b]}
+        c = {"ms": at_ms[SEGMENT[b][-1]]}
         if b == "T1":
             m = results["T1"].metrics
             c["t1_iters"], c["t1_pops"] = int(m["iters"]), int(m["pops"])
@@ -756,27 +1154,30 @@ def check_turn(case, rec=None):
             c["t3_ops"] = len(results["T3"].ops)
         return c
 
-    want_calls = CALLS_UNTIL[stage_end]
+    want_calls = calls_until[stage_end]
     rag = "rag" in calls
     if [c for c in calls if c != "rag"] != want_calls or calls.count("rag") > 1 or (rag and calls[calls.index("rag") - 1] != "T3"):
         raise Violation(f"turn yielded at {stage_end!r} but executed stages {calls} (expected exactly {want_calls}): "
                         "work of a later stage ran / a stage was skipped", case, "stage-sequence")
     seen_kinds = []
-    for b in BOUNDARIES:
+    cons = None
+    for b in bounds:
         c = consumed_at(b)
         adm, info = ref_should_yield(slice_budgets, c)
         if b == stage_end:
             if ev.get("reason") not in (adm - {None}):
-                raise Violation(f"yield at {b} with reason {ev.get('reason')!r}; consumption {c} under budgets {slice_budgets} "
-                                f"gives {sorted(map(str, adm))} (WALL_MS > BUDGET_* > QUANTUM_EXCEEDED)", case, "yield-reason")
+                raise Violation(f"yield at {b} with reason {ev.get('reason')!r}; consumption {c} (time since the slice started) "
+                                f"under budgets {slice_budgets} gives {sorted(map(str, adm))} (WALL_MS > BUDGET_* > "
+                                "QUANTUM_EXCEEDED)", case, "yield-reason")
             if ev.get("consumed") != c:
-                raise Violation(f"yield event records consumption {ev.get('consumed')} at {b}, the stages did {c}", case,
-                                "event-consumed")
+                raise Violation(f"yield event records consumption {ev.get('consumed')} at {b}, the stages did {c} since the "
+                                "slice started", case, "event-consumed")
             seen_kinds = [x for x, on in (("wall", info["wall"]), ("budget", bool(info["hit"])), ("quantum", info["quantum"])) if on]
+            cons = c
             break
         if None not in adm:
-            raise Violation(f"no yield at boundary {b} although consumption {c} under budgets {slice_budgets} requires "
-                            f"{sorted(map(str, adm))}; turn went on to {stage_end!r}", case, "missed-yield")
+            raise Violation(f"no yield at boundary {b} although consumption {c} (time since the slice started) under budgets "
+                            f"{slice_budgets} requires {sorted(map(str, adm))}; turn went on to {stage_end!r}", case, "missed-yield")
     # nothing of a later stage is recorded; everything executed is recorded once
     for s in SLOTS:
         for fn in LOGS_OF[s]:
@@ -793,8 +1194,11 @@ def check_turn(case, rec=None):
             raise Violation(f"turn.jsonl {turns[0]} does not carry the yield ({ev.get('reason')})", case, "turn-log-yield")
     elif turns[0].get("yielded"):
         raise Violation(f"turn.jsonl says yielded but no yield event exists: {turns[0]}", case, "turn-log-yield")
-    # budgets bind (aggregate view; exact per-graph clamps are C12's job)
-    ng = max(1, len(case["active"]))
+
+    # ---- budgets bind -----------------------------------------------------------------------------------------------
+    labels = []
+    view, text = ob["view"], case["text"]
+    ng = max(1, len(view))
     clamp = []
     m1 = results["T1"].metrics
     for key, val, mult in (("t1_pops", int(m1["pops"]), ng), ("t1_iters", int(m1["iters"]), ng),
@@ -808,44 +1212,112 @@ def check_turn(case, rec=None):
                             case, f"clamp-{key}")
         if val == b * mult and b < 50:
             clamp.append(key)
+    b3 = slice_budgets.get("t3_ops")
+    for tag, n_ in sorted(ob.get("plan_ops", {}).items()):
+        if b3 is not None and n_ > b3:
+            raise Violation(f"the plan handed to {tag} has {n_} ops under slice budget t3_ops={b3} (deliberation returned "
+                            f"{len(results['T3'].ops)})", case, "clamp-t3_ops")
+    # propagation pops, per graph, as really performed (heap pops counted under the stage, not its own metrics)
+    bp = slice_budgets.get("t1_pops")
+    if ob["pops"]:
+        labels.append("t1-real-pops-observed")
+        if bp is not None:
+            for gid, n_ in sorted(ob["pops"].items()):
+                if n_ > bp:
+                    raise Violation(f"T1 performed {n_} heap pops on graph {gid!r} under slice budget t1_pops={bp} (its metrics "
+                                    f"report pops={m1['pops']} over {ng} graph(s))", case, "clamp-t1_pops-real")
+            if any(n_ == bp for n_ in ob["pops"].values()) and bp < 50:
+                labels.append("t1-real-pops==budget")
+    # propagation pops / layers as visible in the RESULT (also covers results served from a cache): with p pops only seeds and
+    # out-neighbours of p popped nodes can be touched; with i layers nothing further than i hops from a seed
+    touched = {str(d_.get("id")) for d_ in (results["T1"].graph_deltas or []) if isinstance(d_, dict)}
+    bi = slice_budgets.get("t1_iters")
+    if bi is not None:
+        allowed, allowed_inf = set(), set()
+        for gv in view.values():
+            allowed |= {str(x) for x in _reach(gv, text, bi)[1]}
+            allowed_inf |= {str(x) for x in _reach(gv, text, 10 ** 6)[1]}
+        extra = sorted(touched - allowed)
+        if extra:
+            raise Violation(f"T1 touched node(s) {extra} further than t1_iters={bi} layer(s) from every seed of the active graphs "
+                            f"(text {text!r}); metrics report iters={m1['iters']}", case, "clamp-t1_iters-reach")
+        if allowed != allowed_inf:
+            labels.append("t1_iters-budget-cuts-reach")
+    if bp is not None:
+        cap_n, seeds_all = 0, set()
+        for gv in view.values():
+            seeds = _reach(gv, text, 0)[0]
+            seeds_all |= {str(x) for x in seeds}
+            outdeg = collections.Counter()
+            for s_, d_ in set(gv["edges"]):
+                outdeg[s_] += 1
+            cap_n += len(seeds) + sum(sorted(outdeg.values(), reverse=True)[:bp])
+        if (bp == 0 and not touched <= seeds_all) or len(touched) > cap_n:
+            raise Violation(f"T1 touched {len(touched)} node(s) {sorted(touched)}: more than the seeds {sorted(seeds_all)} plus the "
+                            f"out-neighbours of t1_pops={bp} popped node(s) can be (<= {cap_n}); metrics report pops={m1['pops']}",
+                            case, "clamp-t1_pops-reach")
     # "retrieval hits USED": whatever T2 derives from its hits (residual graph nudges) may only come from the first
-    # k_used ranked hits, not from hits beyond the slice budget
-    if "T2" in results:
-        r2 = results["T2"]
+    # k_used ranked hits, not from hits beyond the slice budget -- for the stage's T2 run and for the RAG re-entry
+    labels_of = {}
+    for gv in view.values():
+        for nid, label, _ in gv["nodes"]:
+            if label:
+                labels_of.setdefault(nid, set()).add(label.lower())
+    b2 = slice_budgets.get("t2_k")
+    for tag in ("T2", "rag"):
+        if tag not in results:
+            continue
+        r2 = results[tag]
         ku = int(r2.metrics["k_used"])
-        used_texts = [(getattr(h_, "text", "") or "").lower() for h_ in list(r2.retrieved)[:ku]]
-        labels_of = {}
-        for spec in case["graphs"].values():
-            for n_ in spec["nodes"]:
-                if n_["label"]:
-                    labels_of.setdefault(n_["id"], set()).add(str(n_["label"]).lower())
+        if b2 is not None and ku > b2:
+            raise Violation(f"{tag}: retrieval used {ku} hits under slice budget t2_k={b2}", case, "clamp-t2_k")
+        hits = list(r2.retrieved)
+        used_texts = [(getattr(h_, "text", "") or "").lower() for h_ in hits[:ku]]
         for d_ in list(getattr(r2, "graph_deltas_residual", []) or []):
             nid = d_.get("id")
             if not any(lb in t_ for lb in labels_of.get(nid, ()) for t_ in used_texts):
-                raise Violation(f"residual nudge for node {nid!r} is not justified by the {ku} hit(s) the slice budget "
-                                f"t2_k={slice_budgets.get('t2_k')} allows T2 to use ({len(r2.retrieved)} retrieved): a hit beyond "
-                                "the budget was used", case, "t2-uses-hits-beyond-budget")
-    if rec is not None:
-        reason = ev.get("reason") if ev else None
-        labels = [f"stage_end={stage_end}", f"reason={reason}", f"mode={case['mode']}"]
-        labels += [f"clamped:{k}" for k in clamp]
-        if len(seen_kinds) >= 2:
-            labels.append("precedence-exercised")
-        if "T2" in results and int(results["T2"].metrics["k_used"]) > 0:
-            labels.append("t2-hits-used")
-        if "T2" in results and slice_budgets.get("t2_k") is not None and len(results["T2"].retrieved) > slice_budgets["t2_k"]:
-            labels.append("t2_k-budget-binds(retrieved>budget)")
-        if rag:
-            labels.append("rag-reentry")
-        for key in ("t1_pops", "t1_iters"):
-            if slice_budgets.get(key) is not None and int(m1[key[3:]]) > slice_budgets[key]:
-                labels.append(f"aggregate-over-budget:{key}(undocumented)")
-        if int(m1["pops"]) > 0:
-            labels.append("t1-pops>0")
-        nt = (reason is not None and reason != "QUANTUM_EXCEEDED") or bool(clamp)
-        rec.case(nontrivial=nt, dig=digest(case) if nt else None, labels=labels,
-                 sample={"budgets": slice_budgets, "dur": case["dur"], "stage_end": stage_end, "reason": reason,
-                         "consumed": ev.get("consumed") if ev else None, "calls": calls} if nt else None)
+                raise Violation(f"{tag}: residual nudge for node {nid!r} is not justified by the {ku} hit(s) the slice budget "
+                                f"t2_k={b2} allows T2 to use ({len(hits)} retrieved): a hit beyond the budget was used", case,
+                                "t2-uses-hits-beyond-budget")
+        if tag == "T2":
+            beyond = [(getattr(h_, "text", "") or "").lower() for h_ in hits[ku:]]
+            if any(lb in t_ and not any(lb in u_ for u_ in used_texts) for lbs in labels_of.values() for lb in lbs for t_ in beyond):
+                labels.append("t2-hit-beyond-budget-would-nudge")
+
+    reason = ev.get("reason") if ev else None
+    labels += [f"stage_end={stage_end}", f"reason={reason}", f"mode={spec['mode']}", f"yield@{stage_end}:{reason}"]
+    labels += [f"clamped:{k}" for k in clamp]
+    if len(seen_kinds) >= 2:
+        labels.append("precedence-exercised")
+    if reason in ("WALL_MS", "QUANTUM_EXCEEDED"):
+        thr = slice_budgets.get("wall_ms") if reason == "WALL_MS" else slice_budgets.get("quantum_ms")
+        if thr is not None and max(int(v) for v in spec["dur"].values()) < thr:
+            labels.append("time-crossed-by-sum-of-stages")
+        if cons is not None and cons["ms"] == thr:
+            labels.append("time==threshold")
+    if slice_budgets.get("wall_ms") is None:
+        labels.append("wall=none")
+    elif slice_budgets["wall_ms"] == slice_budgets["quantum_ms"]:
+        labels.append("wall==quantum")
+    if "T2" in results and int(results["T2"].metrics["k_used"]) > 0:
+        labels.append("t2-hits-used")
+    if "T2" in results and b2 is not None and len(results["T2"].retrieved) > b2:
+        labels.append("t2_k-budget-binds(retrieved>budget)")
+    if ob.get("t2_turn_cache_hit"):
+        labels.append("t2-served-from-turn-cache")
+    if int(m1.get("cache_hits", 0) or 0) > 0:
+        labels.append("t1-served-from-cache")
+    if rag:
+        labels.append("rag-reentry")
+    for key in ("t1_pops", "t1_iters"):
+        if slice_budgets.get(key) is not None and int(m1[key[3:]]) > slice_budgets[key]:
+            labels.append(f"aggregate-over-budget:{key}(undocumented)")
+    if int(m1["pops"]) > 0:
+        labels.append("t1-pops>0")
+    nt = (reason is not None and reason != "QUANTUM_EXCEEDED") or bool(clamp)
+    sample = {"budgets": slice_budgets, "dur": spec["dur"], "stage_end": stage_end, "reason": reason,
+              "consumed": ev.get("consumed") if ev else None, "calls": calls}
+    return labels, nt, sample
 
 
 def sub_turns(rec, seed, shard, nshards, n=60, shrink=True):
@@ -854,6 +1326,131 @@ def sub_turns(rec, seed, shard, nshards, n=60, shrink=True):
 
 def replay_turn(case):
     check_turn(case, None)
+
+
+# ------------------------------------------------------------------------------------------------
+# sub-check 5: the real driver loop (clematis/scripts/demo.py) on slices that always yield
+# ------------------------------------------------------------------------------------------------
+
+DRIVER_NAMES = ["b", "a10", "a2", "B", "ä", "Z", "_x", "0", "10", "9", "A", "aa", "AgentA", "AgentB"]  # no commas / outer blanks: CLI list
+FORCE = {"t1_pops": {"t1_pops": 0}, "t1_iters": {"t1_iters": 0}, "both": {"t1_pops": 0, "t1_iters": 0}}
+
+
+@st.composite
+def driver_cases(draw):
+    agents = draw(st.one_of(st.lists(st.sampled_from(DRIVER_NAMES), min_size=1, max_size=5, unique=True),
+                            st.lists(st.sampled_from(DRIVER_NAMES), min_size=3, max_size=5, unique=True)))
+    m = draw(st.sampled_from([1, 1, 2, 3]))
+    return {"agents": agents, "policy": draw(st.sampled_from(POLICIES)), "m": m, "aging": draw(st.sampled_from([0, 1, 200])),
+            "steps": draw(st.integers(1, max(4, min(40, 2 * wait_bound(len(agents), m) + 3)))),
+            "force": draw(st.sampled_from(sorted(FORCE))),      # a zero T1 budget: every slice yields at the T1 boundary
+            "now": draw(st.sampled_from([0, 13371337, 13371337])),
+            "via": draw(st.sampled_from(["yaml", "cli"]))}     # where policy / budgets come from: config file or CLI flags
+
+
+def check_driver(case, rec=None):
+    """Run demo.main() in-process (frozen driver clock, its own state / graph) and judge the (agent, pick reason, queue)
+    sequence it logs against the property: queued + not saturated unless all are, then lexicographically first + reset;
+    round_robin = first eligible in the logged queue order; bounded wait."""
+    import contextlib
+    import io
+    import sys
+    import clematis.io.paths as paths
+    from harness.world import sandbox, reset_engine_globals
+
+    n_agents, m = len(case["agents"]), case["m"]
+    sched = {"enabled": True, "quantum_ms": 20, "budgets": {"wall_ms": 200},
+             "fairness": {"max_consecutive_turns": m, "aging_ms": case["aging"]}}
+    argv = ["demo", "--agents", ",".join(case["agents"]), "--steps", str(case["steps"]), "--fixed-now-ms", str(case["now"])]
+    if case["via"] == "yaml":
+        sched["policy"] = case["policy"]
+        sched["budgets"].update(FORCE[case["force"]])
+    else:
+        argv += ["--policy", case["policy"]]
+        for k, v in FORCE[case["force"]].items():
+            argv += ["--" + k.replace("_", "-"), str(v)]
+    saved_argv, saved_path, saved_logs_dir = list(sys.argv), list(sys.path), paths.logs_dir
+    with sandbox("vx_c17d_") as d:
+        reset_engine_globals()
+        cfg_path = os.path.join(d, "config.yaml")
+        with open(cfg_path, "w", encoding="utf-8") as f:
+            json.dump({"scheduler": sched}, f)  # JSON is YAML
+        out = io.StringIO()
+        try:
+            sys.argv = argv + ["--config", cfg_path]
+            import clematis.scripts.demo as demo
+            with contextlib.redirect_stdout(out):
+                try:
+                    demo.main()
+                except SystemExit as e:
+                    raise RuntimeError(f"harness: demo.main() exited ({e.code}) for argv {sys.argv}: {out.getvalue()[-300:]}")
+                except Exception as e:
+                    raise Violation(f"driver loop raised {type(e).__name__}: {e}", case, "driver-raises")
+        finally:
+            sys.argv[:] = saved_argv
+            sys.path[:] = saved_path
+            paths.logs_dir = saved_logs_dir
+        events = _read_jsonl(os.path.join(d, "logs", "scheduler.jsonl"))
+
+    if len(events) != case["steps"]:
+        # a selection without a yield gets no bookkeeping in this driver: the premise of the property is not met
+        if rec is not None:
+            rec.case(nontrivial=False, labels=["discarded:not-every-slice-yielded"])
+            rec.note("driver_discard_example", {"argv": argv, "events": len(events), "stdout": out.getvalue()[-300:]})
+        return
+    model = RefScheduler(case["agents"], case["now"], case["policy"], m, case["aging"])
+    seen_reset = seen_nonhead = False
+    max_wait = 0
+    for i, ev in enumerate(events):
+        agent, why = ev.get("agent"), ev.get("pick_reason")
+        where = f"step {i + 1}/{len(events)} of {[e.get('agent') for e in events[:i + 1]]}"
+        if case["policy"] == "round_robin":  # the driver owns (and logs) the queue order; the order only matters here
+            qb = ev.get("queue_before")
+            if not isinstance(qb, list) or sorted(qb) != sorted(case["agents"]):
+                raise Violation(f"{where}: logged queue {qb!r} is not the agent set {sorted(case['agents'])}", case, "driver-queue")
+            model.queue = list(qb)
+        adm, want_reason, info = model.pick(case["now"])
+        if agent not in model.queue:
+            raise Violation(f"{where}: selected {agent!r} is not a queued agent ({model.queue})", case, "not-queued")
+        if info["reset"]:
+            if agent != min(model.queue):
+                raise Violation(f"{where}: all allowances used up ({model.consec}, allowance {m}): selected {agent!r}, "
+                                f"lexicographically first is {min(model.queue)!r}", case, "reset-not-lexmin")
+            if why != RESET:
+                raise Violation(f"{where}: all allowances used up but the pick reason is {why!r}, not RESET_CONSEC", case, "reset-reason")
+        else:
+            if agent not in info["eligible"]:
+                raise Violation(f"{where}: selected {agent!r} has used up its allowance {m} ({model.consec}) while "
+                                f"{info['eligible']} have not (no reset happened since)", case, "ineligible-selected")
+            if why == RESET:
+                raise Violation(f"{where}: RESET_CONSEC signalled while {info['eligible']} are still eligible", case, "spurious-reset")
+            if agent not in adm:
+                raise Violation(f"{where}: selected {agent!r}, the policy {case['policy']} selects {sorted(adm)} "
+                                f"(queue {model.queue}, allowances used {model.consec})", case,
+                                "rr-not-first-eligible" if case["policy"] == "round_robin" else "fq-not-argmax")
+        seen_reset = seen_reset or info["reset"]
+        seen_nonhead = seen_nonhead or agent != model.queue[0]
+        model.on_yield(agent, case["now"], info["reset"])
+        starving = model.count_wait(agent)
+        max_wait = max(max_wait, max(model.wait.values()))
+        if starving is not None:
+            raise Violation(f"{where}: agent {starving[0]!r} waited {starving[1]} selections of other agents; bound "
+                            f"2*({n_agents}-1)*{m}+1 = {wait_bound(n_agents, m)}", case, "starvation")
+    if rec is not None:
+        nt = seen_reset and n_agents > 1
+        labels = [f"agents={n_agents}", f"policy={case['policy']}", f"via={case['via']}", f"force={case['force']}"]
+        labels += [x for x, on in (("reset", seen_reset), ("pick!=head", seen_nonhead),
+                                   ("wait==bound", n_agents > 1 and max_wait == wait_bound(n_agents, m))) if on]
+        rec.case(nontrivial=nt, dig=digest(case) if nt else None, labels=labels,
+                 sample={"case": case, "agents": [e.get("agent") for e in events][:12]} if nt else None)
+
+
+def sub_driver(rec, seed, shard, nshards, n=40, shrink=True):
+    run_hypothesis(rec, seed, driver_cases(), lambda c: check_driver(c, rec), max_examples=n, shrink=shrink, name="driver")
+
+
+def replay_driver(case):
+    check_driver(case, None)
 
 
 SUBCHECKS = [
@@ -868,6 +1465,7 @@ SUBCHECKS = [
     Sub("decision", sub_decision, quick={"n": 1250}, thorough={"n": 15000}, shards_quick=4, shards_thorough=16,
         replay=replay_decision),
     Sub("turns", sub_turns, quick={"n": 100}, thorough={"n": 400}, shards_quick=4, shards_thorough=16, replay=replay_turn),
+    Sub("driver", sub_driver, quick={"n": 40}, thorough={"n": 250}, shards_quick=4, shards_thorough=16, replay=replay_driver),
 ]
 
 KNOWN_PROBES = {}
